@@ -23,6 +23,7 @@ Oracle (the property statement):
         location of the offset for every ExprInt leaf                   (missing-edge:loc / missing-edge:int)
 """
 import collections
+import gc
 
 from mc import insngen as g
 from mc.runner import violation
@@ -55,34 +56,35 @@ _T = g.LIFT_TARGETS
 _NAT = [t for t in g.NATIVE if t in _T]
 _SWP = [t for t in g.SWAPPED if t in _T]
 BOUNDS = {
-    # quick: curated vectors of every target; bit flips and cube for one byte order per architecture (the decode
-    # tables and the semantics are shared, the byte order only permutes the bytes fetched); the cube's 16-bit axis
-    # restricted to the multiples of 8 (stride), x86: 2 ModRM bytes x 1 tail
+    # quick (sized for about a minute on a machine whose load is 5x its cores; ~10 s on an idle one): curated vectors
+    # of every target; all single-bit flips for three native-order targets with short curated lists; cube for one byte
+    # order per architecture (decode tables and semantics are shared, the byte order only permutes the bytes fetched)
+    # with the 16-bit axis restricted to the multiples of 32 (stride) and, for x86, one ModRM byte x one tail
     "quick": {
-        "curated": _T, "bitflip": _NAT, "bytesub": [],
+        "curated": _T,
+        "bitflip": ["x86_16", "ppc32b", "msp430"],
+        "bytesub": [],
         "cube": g.cube_dims({
-            "fixed32": {"lo": 1, "hi": 0, "stride": 8},
-            "thumb": {"ext": 1, "stride": 8},
-            "msp430": {"ext": 1, "stride": 8},
-            "word16": {"ext": 1, "stride": 8},
-            "x86": {"prefix": 7, "maps": 2, "second": 2, "tail": 1},
+            "fixed32": {"lo": 1, "hi": 0, "stride": 32},
+            "thumb": {"ext": 1, "stride": 32},
+            "msp430": {"ext": 1, "stride": 32},
+            "word16": {"ext": 1, "stride": 32},
+            "x86": {"prefix": 7, "maps": 2, "second": 1, "tail": 1},
         }, _NAT),
-        "shard": 1024,
+        "shard": 512, "bundles": 16,
     },
+    # thorough: curated + all bit flips for every target; the complete 16-bit axis for the native-order targets;
+    # x86: 7 prefixes x 2 maps x 256 x 4 ModRM x 2 tails; major-opcode byte substitutions for x86_16 and msp430
     "thorough": {
-        "curated": _T, "bitflip": _T, "bytesub": _NAT,
-        "cube": dict(g.cube_dims({
-            "fixed32": {"lo": 4, "hi": 2},
-            "thumb": {"ext": 4},
-            "msp430": {"ext": 4},
-            "word16": {"ext": 4},
-            "x86": {"prefix": 7, "maps": 2, "second": 8, "tail": 4},
-        }, _NAT), **g.cube_dims({
+        "curated": _T, "bitflip": _T, "bytesub": ["x86_16", "msp430"],
+        "cube": g.cube_dims({
             "fixed32": {"lo": 1, "hi": 0},
             "thumb": {"ext": 1},
+            "msp430": {"ext": 1},
             "word16": {"ext": 1},
-        }, _SWP)),
-        "shard": 4096,
+            "x86": {"prefix": 7, "maps": 2, "second": 4, "tail": 2},
+        }, _NAT),
+        "shard": 4096, "bundles": 96,
     },
 }
 
@@ -289,6 +291,10 @@ def _shard(shard):
     return name, shard[1], stats, dict(counters), best, sample, keys
 
 
+def _bundle(bundle):
+    return [_shard(s) for s in bundle]
+
+
 def plan(tier, only=None):
     return g.make_plan(BOUNDS[tier], g.LIFT_TARGETS, only)
 
@@ -300,7 +306,9 @@ def run(ctx):
         _lift_env(name)
         raw = g.raw_of(name, "curated", g.curated(name)[0])
         judge(name, raw, g.decode(name, raw))
-    res = ctx.pmap(_shard, shards)
+    gc.collect()
+    gc.freeze()                          # keep the collector away from the inherited heap (copy-on-write faults)
+    res = [r for rs in ctx.pmap(_bundle, g.bundles(shards, BOUNDS[tier]["bundles"])) for r in rs]
     bounds = dict(BOUNDS[tier], sizes=g.plan_sizes(BOUNDS[tier], g.LIFT_TARGETS), addresses=list(ADDRS))
     return g.fold(ctx, res, bounds, nontrivial=lambda c: c.get("lifted", 0))
 
